@@ -53,9 +53,11 @@ func lookupFlow[T any](urlTree *URLTree[T], url string) lookupFlowNodeResult[T] 
 	// (leaving the loop early stops at a prefix of the URL)
 	allPartsMatched := matchedParts == len(splitURL)
 
-	if allPartsMatched && currentNode.hasValue() && currentNode.WildcardChild == nil {
+	// the exact node is selected whether or not it also has a wildcard child
+	if allPartsMatched && currentNode.hasValue() {
 		flows = append(flows, *currentNode.Value)
-	} else if allPartsMatched && part.IsPartOfHost &&
+	}
+	if allPartsMatched && part.IsPartOfHost &&
 		currentNode.WildcardChild != nil && currentNode.WildcardChild.hasValue() {
 		// case where url is host without path and filter ends with a wildcard, for example:
 		// url: "host.com", filter: "host.com/*"
